@@ -193,6 +193,47 @@ func intervalBurst(ctx context.Context, c hooks, cfg *config.Config, r *emit.Ran
 
 // configChangeOverLimit: every run-time setting is changed while the cache is AT/OVER its limit,
 // then the cache must still serve operations (a listener that evicts/cleans must not wait for itself).
+// blockedReader: a body source that has delivered a first piece and then stalls (an upstream that stopped sending)
+type blockedReader struct {
+	started chan struct{}
+	release chan struct{}
+	sent    bool
+}
+
+func (b *blockedReader) Read(p []byte) (int, error) {
+	if !b.sent {
+		b.sent = true
+		close(b.started)
+		return copy(p, "first piece;"), nil
+	}
+	<-b.release
+	return 0, io.EOF
+}
+
+// destroyDuringStalledStore: stopping the cache never waits for a store whose upstream has stalled.
+func destroyDuringStalledStore(ctx context.Context, c hooks, cfg *config.Config, r *emit.Rand) error {
+	src := &blockedReader{started: make(chan struct{}), release: make(chan struct{})}
+	defer close(src.release)
+	go func() {
+		if e, err := c.Cache(cache.FromString("stalled-store"), src, time.Now().Add(time.Hour), meta{}); err == nil && e.Data != nil {
+			e.Data.Close()
+		}
+	}()
+	select {
+	case <-src.started:
+	case <-time.After(3 * time.Second):
+		return nil // the store never started reading: nothing to judge
+	}
+	done := make(chan struct{})
+	go func() { c.Destroy(); close(done) }()
+	select {
+	case <-done:
+		return nil
+	case <-time.After(3 * time.Second):
+		return fmt.Errorf("Destroy() did not return within 3 s while a store was waiting for the rest of its body from a stalled upstream")
+	}
+}
+
 func configChangeOverLimit(ctx context.Context, c hooks, cfg *config.Config, r *emit.Rand) error {
 	for i := 0; i < 3; i++ {
 		// limit 1000: 600 (under), 1200 (over, the check happens before the store), third store evicts
@@ -348,7 +389,8 @@ func main() {
 					scenario{Name: "mixed-concurrent", Backend: b, Shards: n, run: mixedConcurrent, timeout: 40 * time.Second},
 					scenario{Name: "destroy-during-cycle", Backend: b, Shards: n, run: destroyDuringCycle, timeout: 10 * time.Second},
 					scenario{Name: "interval-burst", Backend: b, Shards: n, run: intervalBurst, timeout: 15 * time.Second},
-					scenario{Name: "config-change-over-limit", Backend: b, Shards: n, run: configChangeOverLimit, timeout: 10 * time.Second})
+					scenario{Name: "config-change-over-limit", Backend: b, Shards: n, run: configChangeOverLimit, timeout: 10 * time.Second},
+					scenario{Name: "destroy-during-stalled-store", Backend: b, Shards: n, run: destroyDuringStalledStore, timeout: 10 * time.Second})
 			}
 		}
 	}
@@ -416,7 +458,7 @@ func main() {
 	dist["unparseable-range-416-retry"]++
 	out := map[string]any{
 		"harness": "sync", "seed": *flagSeed, "tier": *flagTier, "total": executed, "distinct": executed, "distinct_nontrivial": executed,
-		"rule":         "forced concurrency scenarios (store-triggered eviction with victims on the caller's shard; 8 workers x 250 mixed ops on colliding keys with 1 ms janitor ticks and limit/interval/budget change events; Destroy during a cycle; back-to-back interval changes) + request-level scenarios (tunnel to a host whose cached certificate has run out, then another host; a request with an unparseable Range answered 416 under retry_on_range_416, then a plain GET; the log file becoming unwritable under the real logging set-up) x backends {memory,file} x shards {1,2,3,64}; every scenario under a watchdog; non-trivial = all",
+		"rule":         "forced concurrency scenarios (store-triggered eviction with victims on the caller's shard; 8 workers x 250 mixed ops on colliding keys with 1 ms janitor ticks and limit/interval/budget change events; Destroy during a cycle; Destroy while a store waits for a stalled upstream; back-to-back interval changes) + request-level scenarios (tunnel to a host whose cached certificate has run out, then another host; a request with an unparseable Range answered 416 under retry_on_range_416, then a plain GET; the log file becoming unwritable under the real logging set-up) x backends {memory,file} x shards {1,2,3,64}; every scenario under a watchdog; non-trivial = all",
 		"distribution": map[string]any{"scenario": dist},
 		"samples":      []any{map[string]any{"scenario": "store-evict-same-shard", "backend": "memory", "shards": 1}},
 		"files":        []string{},
